@@ -180,6 +180,7 @@ package store
 //@   ensures !held(database.RW) && !rheld(database.RW)
 //@ func (*ChainDatabase).CandidatesRanking
 //@   props C19
+//@   opt atomic=database.RW
 //@   requires database != nil && !held(database.RW) && !rheld(database.RW)
 //@   ensures !held(database.RW) && !rheld(database.RW)
 //@ func (*ChainDatabase).IterateUnConfirms
@@ -200,6 +201,7 @@ package store
 //@   ensures !held(database.RW) && !rheld(database.RW)
 //@ func (*ChainDatabase).GetUnConfirmByHeight
 //@   props C19
+//@   opt atomic=database.RW
 //@   requires database != nil && !held(database.RW) && !rheld(database.RW)
 //@   ensures !held(database.RW) && !rheld(database.RW)
 // every node of the tree carries its account/candidate views and a well-formed top list (established by the constructors
@@ -207,11 +209,13 @@ package store
 //@ pred wfCB(b *CBlock) = b != nil && b.Top != nil && wfCands(b.Top.Top) && b.AccountTrieDB != nil && b.CandidateTrieDB != nil
 //@ func (*ChainDatabase).SetBlock
 //@   props C19
+//@   opt atomic=database.RW
 //@   requires database != nil && !held(database.RW) && !rheld(database.RW)
 //@   requires wfCB(database.LastConfirm) && forallKeys(h, database.UnConfirmBlocks, wfCB(database.UnConfirmBlocks[h]))
 //@   ensures !held(database.RW) && !rheld(database.RW)
 //@ func (*ChainDatabase).SetConfirms
 //@   props C19
+//@   opt atomic=database.RW
 //@   requires database != nil && !held(database.RW) && !rheld(database.RW)
 //@   ensures !held(database.RW) && !rheld(database.RW)
 //@ func (*ChainDatabase).GetConfirms
@@ -220,6 +224,7 @@ package store
 //@   ensures !held(database.RW) && !rheld(database.RW)
 //@ func (*ChainDatabase).SetStableBlock
 //@   props C19
+//@   opt atomic=database.RW
 //@   requires database != nil && !held(database.RW) && !rheld(database.RW)
 //@   ensures !held(database.RW) && !rheld(database.RW)
 //@ func (*ChainDatabase).GetCandidatesTop
